@@ -69,6 +69,12 @@ def build_ops(case):
 
 
 def run_and_check(case):
+    # a quarter of the cases run while the caller is handling an exception (a batch opened in a retry handler)
+    ctx = "handler" if case.get("ambient", int(C.case_key(case)[:2], 16) < 64) else "plain"
+    return C.in_ambient(ctx, lambda: run_and_check_(case))
+
+
+def run_and_check_(case):
     from trie import HexaryTrie
     backing = C.FailingDict()
     t = HexaryTrie(backing, prune=case["prune"])
